@@ -246,6 +246,15 @@ func TimeNanos(t time.Time) sdkmath.Int {
 	return sdkmath.NewInt(t.Unix()).MulRaw(1000000000).AddRaw(int64(t.Nanosecond()))
 }
 func StrLen(s string) int { return len(s) }
+func StrEq(a, b string) bool { return a == b }
+
+// IntStr: decimal rendering; Pad9: nine digits with leading zeros (argument in [0,10^9)); IntMod:
+// Euclidean modulus.
+func IntStr(a sdkmath.Int) string { return a.String() }
+func Pad9(a sdkmath.Int) string   { return fmt.Sprintf("%09d", a.Int64()) }
+func IntMod(a, b sdkmath.Int) sdkmath.Int {
+	return sdkmath.NewIntFromBigInt(new(big.Int).Mod(a.BigInt(), b.BigInt()))
+}
 
 // NewContext builds an sdk.Context over the given (model) multistore.
 func NewContext(ms sdk.MultiStore, t time.Time, height int64, checkTx bool) sdk.Context {
